@@ -3,22 +3,29 @@ import itertools
 import graphs as gr
 
 PROP = "C19"
-RULE = ("every directed mixed graph CYC(n) (any subset of the n(n-1) directed and n(n-1)/2 bidirected edges) n<=3 quick / "
-        "n<=3 complete + 20000 sampled n=4 thorough, all pairwise-disjoint (X,Y,Z) with X<Y; seeded random n<=8, half of them "
+RULE = ("every directed mixed graph CYC(n) (any subset of the n(n-1) directed and n(n-1)/2 bidirected edges) n<=3 complete, "
+        "plus 1500 (quick) / 50000 (thorough) sampled n=4 (half of them with edge probability 1/4), the design's two witnesses, "
+        "all pairwise-disjoint (X,Y,Z) with X<Y; seeded random n<=8 (sigma oracle up to n=6 and 14 edges), half of them "
         "built from 2-3 non-trivial strongly connected components feeding each other; graphs without a bidirected edge also "
         "with the bidirected layer absent; distinct by (canonical graph, layers); non-trivial = the graph has a directed cycle "
         "and the queries contain a sigma-separated and a sigma-connected one")
-EXHAUSTIVE = {"quick": "all CYC(n) n<=3, all disjoint X,Y,Z", "thorough": "all CYC(n) n<=3, all disjoint X,Y,Z (n=4: 20000 sampled)"}
+EXHAUSTIVE = {"quick": "all CYC(n) n<=3, all disjoint X,Y,Z (n=4: 1500 sampled)", "thorough": "all CYC(n) n<=3, all disjoint X,Y,Z (n=4: 50000 sampled)"}
 TRUSTED = ["networkx strongly_connected_components / complete_graph and their yield order taken at face value",
            "m_separated (property C01) is what sigma_separated delegates to"]
 ASSUMPTIONS = ["default edge-type names", "only directed and bidirected layers (the property's domain)", "int labels (label families: C15)"]
-LEVEL_TEXT = ("Coq theorems for ALL graphs: acy_nodes_edges (the model's edges are exactly the property's characterisation with "
-              "'strongly connected component' = mutual directed reachability), acy_acyclic, acy_idempotent_on_acyclic. "
-              "sigma_equiv (m-separation in the acyclification = sigma-separation by the path definition) is proved by kernel "
-              "computation for all graphs up to the node bound named in Props/C19.v (sigma_equiv_bounded_n), beyond that it is "
-              "observed through the extracted oracle only. The code is tied to the model by correspondence.")
-LEVEL_NOTE = ("The unbounded sigma-separation theorem (Forre-Mooij / Mooij-Claassen 2020, Prop. A.19) is stated in C19/Spec.v and not "
-              "attempted. copy=True integrity and the exception-free behaviour are observed by correspondence only.")
+LEVEL_TEXT = ("Coq theorems for ALL graphs: acy_nodes_edges (the model's directed / bidirected edges are exactly the property's "
+              "characterisation, with 'strongly connected component' = mutual directed reachability by definition), acy_acyclic, "
+              "acy_idempotent_on_acyclic, and sigma_sep_dec_reflects (the brute-force oracle decides sigma-separation as defined on simple "
+              "paths). The sigma clause 'm-separation in the acyclification <-> every path is sigma-blocked' (path definitions on both "
+              "sides) is proved by kernel computation: sigma_equiv_bounded_3 for ALL directed mixed graphs on <=3 nodes (512 graphs on 3 "
+              "nodes, all disjoint X,Y,Z) and sigma_equiv_bounded_4_directed for all 4096 directed graphs on 4 nodes without bidirected "
+              "edges; beyond that (4 nodes with bidirected edges: 50000 sampled in the thorough tier, random graphs up to 6 nodes) it "
+              "is observed through the extracted oracle only. The code is tied to the model by correspondence.")
+LEVEL_NOTE = ("The unbounded sigma-separation theorem (Forre-Mooij 2017 / Mooij-Claassen 2020, Prop. A.19) is stated in C19/Spec.v "
+              "(sigma_equiv_stmt) and not attempted. The bounded theorems quantify over the enumerated graphs (edge lists = sub-lists of "
+              "the canonical pair list; cyc_enumeration_complete shows every edge set occurs up to set equality; invariance of the "
+              "definitions under set-equal edge lists is by construction, not a theorem). copy=True integrity and exception-free "
+              "behaviour are observed by correspondence only; sigma_separated delegates to m_separated (property C01).")
 TECHNIQUE = "Coq proof (model = characterisation, unbounded; sigma clause bounded by vm_compute) + extracted-model correspondence (tie K)"
 SPOT_N = 10
 
@@ -126,9 +133,12 @@ def gen_cases(tier, rng):
     for g in (gr.G(range(4), D=[[0, 1], [1, 0], [1, 2], [2, 3], [3, 2]]),
               gr.G(range(4), D=[[0, 1], [1, 0], [2, 3], [3, 2]], B=[[1, 2]])):
         yield {"kind": "witness", "g": g, "layers": ["directed", "bidirected"], "qs": queries(g["V"]), "oracle": True}
-    n4 = 1500 if tier == "quick" else 20000
-    for _ in range(n4):
-        g = cyc_from_code(4, rng.randrange(n_codes(4)))
+    n4 = 1500 if tier == "quick" else 50000
+    for i in range(n4):
+        code = rng.randrange(n_codes(4))
+        if i % 2:
+            code &= rng.randrange(n_codes(4))      # sparser half: every edge with probability 1/4
+        g = cyc_from_code(4, code)
         yield {"kind": "cyc4s", "g": g, "layers": ["directed", "bidirected"], "qs": queries(g["V"]), "oracle": True}
     nr = 300 if tier == "quick" else 3000
     for i in range(nr):
